@@ -33,7 +33,7 @@ func (C12) Explore(x *kernel.Explorer, seed uint64) {
 	r := kernel.NewRNG(seed, 0xc12)
 	for i := 0; i < 4 && !x.Expired(); i++ {
 		plan := &kernel.Plan{Prop: "C12", Seed: kernel.Mix(seed, uint64(i)), Swarm: map[string]int64{
-			"chunk": []int64{0, 0, 1, 3}[r.Intn(4)], "part": int64(1 + r.Intn(2)), "colseed": int64(r.Uint32())}}
+			"chunk": []int64{0, 0, 1, 3}[r.Intn(4)], "part": int64(1 + r.Intn(2)), "colseed": int64(r.Uint32()), "mysql": int64(r.Intn(3) / 2), "depeof": int64(r.Intn(2))}}
 		n := 2 + r.Intn(6)
 		for j := 0; j < n; j++ {
 			plan.Ops = append(plan.Ops, kernel.Op{ID: j + 1, Kind: "stmt", A: []int64{int64(r.Intn(6)), int64(r.Intn(len(c12Lens))), int64(r.Intn(2)), int64(r.Intn(4))}})
@@ -80,6 +80,9 @@ func parseBackend(stream []byte) ([]pgproto3.BackendMessage, [][]byte, error) {
 }
 
 func (C12) Run(t *testing.T, plan *kernel.Plan, keepLog bool) *kernel.Result {
+	if plan.Sw("mysql") == 1 {
+		return c12MySQL(t, plan, keepLog)
+	}
 	w := kernel.NewWorld(plan, keepLog)
 	Bubble(t, plan.Seed, func() {
 		start := time.Now()
